@@ -176,7 +176,13 @@ async def copy_remote_to_remote(
             )
     # Build reader and writer commands
     if reader_command is None:
-        reader_command = ["tar", "chf", "-", "-C", *posixpath.split(src)]
+        reader_command = [
+            "tar",
+            "chf",
+            "-",
+            "-C",
+            *(shlex.quote(part) for part in posixpath.split(src)),
+        ]
     if writer_command is None:
         writer_command = await utils.get_remote_to_remote_write_command(
             src_connector=source_connector,
@@ -252,8 +258,8 @@ async def copy_same_connector(
                     location=location,
                     command=(["ln", "-snf"] if read_only else ["/bin/cp", "-rf"])
                     + [
-                        src,
-                        dst,
+                        shlex.quote(src),
+                        shlex.quote(dst),
                     ],
                 )
                 if logger.isEnabledFor(logging.INFO):
@@ -421,7 +427,13 @@ class BaseConnector(Connector, FutureAware, ABC):
             location=location,
             src=src,
             dst=dst,
-            reader_command=["tar", "chf", "-", "-C", *posixpath.split(src)],
+            reader_command=[
+                "tar",
+                "chf",
+                "-",
+                "-C",
+                *(shlex.quote(part) for part in posixpath.split(src)),
+            ],
         )
 
     async def copy_remote_to_remote(
